@@ -26,7 +26,10 @@ def worker(configs):
         # replay sees the same frame); a defect is a property of the geometries, never of the labels
         mode = int(sum(x * 7 + y * 13 for seg in cfg for x, y in seg)) % 3
         index = [list(range(len(cfg))), [10 + 3 * i for i in range(len(cfg))], [7] * len(cfg)][mode]
-        tr = gpd.GeoDataFrame(geometry=[LineString(s) for s in cfg], index=index)
+        # half of the frames carry Z values on every vertex (2.5-D digitising): defects are those of the plan view
+        with_z = int(sum(x * 3 + y * 5 for seg in cfg for x, y in seg)) % 2 == 1
+        geoms = [LineString([(x, y, 7.0 + 0.25 * j) for j, (x, y) in enumerate(s)]) if with_z else LineString(s) for s in cfg]
+        tr = gpd.GeoDataFrame(geometry=geoms, index=index)
         try:
             v = Validation(tr, area, "x", True, SNAP_THRESHOLD=0.001).run_validation()
             out.append([sorted(set(e) - IGNORED) for e in v["VALIDATION_ERRORS"]])
@@ -72,7 +75,7 @@ def evaluate(ctx, configs, res, stream):
 
 
 def s02_lattice_pairs(ctx):
-    res = StreamResult("S02-lattice-pairs", rule="ALL 7140 pairs of straight traces with end points on the 4x4 integer lattice (exhaustive; index labels default / offset / all rows under ONE label, a third each); verdict per trace: "
+    res = StreamResult("S02-lattice-pairs", rule="ALL 7140 pairs of straight traces with end points on the 4x4 integer lattice (exhaustive; index labels default / offset / all rows under ONE label, a third each; Z values on every vertex in half of the frames); verdict per trace: "
                        "error iff in a defect, documented string included; non-trivial = configuration with a defect")
     evaluate(ctx, list(itertools.combinations(SEGS, 2)), res, "S02-lattice-pairs")
     res.samples = [{"traces": [list(SEGS[0]), list(SEGS[17])]}]
